@@ -753,6 +753,12 @@ func (c *Conn) WritePreparedMessage(pm *PreparedMessage) error {
 	if err != nil {
 		return err
 	}
+	if isData(pm.messageType) && c.writer != nil {
+		// Like NextWriter and WriteMessage, close the writer that the application
+		// left open: a data message cannot be sent inside an unfinished message.
+		c.writer.Close()
+		c.writer = nil
+	}
 	if c.isWriting {
 		panic("concurrent write to websocket connection")
 	}
